@@ -1061,6 +1061,14 @@ pub fn get_limit(params: &EntityParams, prepared_query: &mut SingleQuery) -> Str
     }
 
     if let Some(skip) = &params.skip {
+        //the SQL engine only accepts OFFSET after a LIMIT: -1 means no limit
+        let has_offset = match skip {
+            FieldValue::Variable(_) => true,
+            FieldValue::Value(val) => val.as_i64().unwrap() != 0,
+        };
+        if query.is_empty() && has_offset {
+            query.push_str("LIMIT -1");
+        }
         match skip {
             FieldValue::Variable(var) => {
                 let vars = prepared_query.add_param(String::from(var), false);
